@@ -767,8 +767,9 @@ def terms_are_like(
     if len(one.variables) != len(two.variables):
         return False
 
-    invalid = len([False for v in one.variables if v not in two.variables]) > 0
-    if invalid:
+    # Compare the variables as multisets so that the answer does not depend on which
+    # term is given first, e.g. "x * x" and "x * y" are not like terms either way around.
+    if sorted(one.variables) != sorted(two.variables):
         return False
 
     # Also, the exponents must match
